@@ -506,6 +506,10 @@ def erase(ts):
             j = i; d = 0
             while not (ts[j] == ';' and d == 0): d += ts[j] in '([{'; d -= ts[j] in ')]}'; j += 1
             ghost(ts[i:j + 1]); i = j + 1; continue
+        if t in ('hide', 'reveal', 'reveal_with_fuel') and i + 1 < n and ts[i + 1] == '(' and (not E or E[-1] in ('{', ';', '}')):
+            j = match_close(ts, i + 1) + 1
+            if j < n and ts[j] == ';': j += 1
+            ghost(ts[i:j]); i = j; continue
         if t in ('assert', 'assume') and i + 1 < n and ts[i + 1] in ('(', 'forall'):
             j = i + 1; d = 0
             while True:
